@@ -4,7 +4,8 @@ SPEC("pane.converters", "UnionConverter.__init__",
      shapes={"types": "seq"}, mutable=["self"],
      ensures=[(lambda self, types, handlers, constructor: slen(self.converters) == slen(types)
                and forall(range(slen(types)), lambda j: sat(self.converters, j) == mkconv(sat(types, j), handlers)), ["C18", "C11"], "children"),
-              (lambda self, types, handlers, constructor: self.constructor is constructor, ["C11"], "constructor")])
+              (lambda self, types, handlers, constructor: self.constructor is constructor, ["C11"], "constructor")],
+     raises=(lambda self, types, handlers, constructor, exc: exc_is(exc, TypeError) or exc_is(exc, UnsupportedAnnotation), ["C04"]))
 
 SPEC("pane.converters", "TupleConverter.__init__",
      shapes={"types": "seq"}, mutable=["self"],
@@ -55,7 +56,7 @@ SPEC("pane.converters", "TaggedUnionConverter.__init__",
               (lambda self, types, tag, external, handlers: forall_val(lambda k: implies(mhas(self.tag_map, k),
                   is_int_key(mget(self.tag_map, k)) and 0 <= int_key(mget(self.tag_map, k)) and int_key(mget(self.tag_map, k)) < slen(self.types))),
                ["C12"], "tag-map-range")],
-     raises=(lambda self, types, tag, external, handlers, exc: exc_is(exc, TypeError) or exc_is(exc, AttributeError) or exc_is(exc, UnsupportedAnnotation), ["C12"]),
+     raises=(lambda self, types, tag, external, handlers, exc: exc_is(exc, TypeError) or exc_is(exc, UnsupportedAnnotation), ["C12", "C04"]),
      invariants={0: lambda it, self, tag: forall(range(it), lambda j: mhas(self.tag_map, dynattr(sat(self.types, j), tag))
                                                  and int_key(mget(self.tag_map, dynattr(sat(self.types, j), tag))) == j)
                  and forall_val(lambda k: implies(mhas(self.tag_map, k),
